@@ -8,6 +8,9 @@ import (
 func sorted(s []string) []string { sort.Strings(s); return s }
 
 func TestAll(t *testing.T) {
+	if GoIfaceVariadic() != 21 || GridGet("abc") != 3 || OnceTableGet(2) != 20 {
+		t.Fatal("third review constructs")
+	}
 	m := map[string]int{"a": 1, "b": 2, "c": 3, "d": 4}
 	if k := sorted(Keys(m)); len(k) != 4 || k[0] != "a" || k[3] != "d" {
 		t.Fatal(k)
